@@ -634,15 +634,49 @@ func (bridge *ExprBridge) convertLikeToFunction(field, pattern string) string {
 // 支持%（匹配任意字符序列）和_（匹配单个字符）。
 // 采用经典双指针回溯算法，最坏 O(n*m)，对抗性模式不会指数膨胀。
 func (bridge *ExprBridge) matchesLikePattern(text, pattern string) bool {
+	if !isASCIIString(text) || !isASCIIString(pattern) {
+		return likePatternRunes([]rune(text), []rune(pattern))
+	}
 	ti, pi := 0, 0
 	starIdx, matchIdx := -1, 0
 	for ti < len(text) {
-		if pi < len(pattern) && (pattern[pi] == '_' || pattern[pi] == text[ti]) {
-			ti++
-			pi++
-		} else if pi < len(pattern) && pattern[pi] == '%' {
+		// '%' must be tested before the literal comparison: a '%' in the text would
+		// otherwise consume the pattern's wildcard as a literal character.
+		if pi < len(pattern) && pattern[pi] == '%' {
 			starIdx = pi
 			matchIdx = ti
+			pi++
+		} else if pi < len(pattern) && (pattern[pi] == '_' || pattern[pi] == text[ti]) {
+			ti++
+			pi++
+		} else if starIdx != -1 {
+			pi = starIdx + 1
+			matchIdx++
+			ti = matchIdx
+		} else {
+			return false
+		}
+	}
+	for pi < len(pattern) && pattern[pi] == '%' {
+		pi++
+	}
+	return pi == len(pattern)
+}
+
+// likePatternRunes is the same algorithm over characters (runes) for non-ASCII input, so that
+// _ stands for one character rather than one byte.
+func likePatternRunes(text, pattern []rune) bool {
+	ti, pi := 0, 0
+	starIdx, matchIdx := -1, 0
+	for ti < len(text) {
+		// '%' must be tested before the literal comparison: a '%' in the text would
+		// otherwise consume the pattern's wildcard as a literal character.
+		if pi < len(pattern) && pattern[pi] == '%' {
+			starIdx = pi
+			matchIdx = ti
+			pi++
+		} else if pi < len(pattern) && (pattern[pi] == '_' || pattern[pi] == text[ti]) {
+			ti++
 			pi++
 		} else if starIdx != -1 {
 			pi = starIdx + 1
@@ -819,4 +853,14 @@ func EvaluateWithBridge(expression string, data map[string]any) (any, error) {
 // 便捷函数：获取所有可用函数信息
 func GetAllAvailableFunctions() map[string]any {
 	return GetExprBridge().GetFunctionInfo()
+}
+
+// isASCIIString reports whether s contains only single-byte characters.
+func isASCIIString(s string) bool {
+	for i := 0; i < len(s); i++ {
+		if s[i] >= 0x80 {
+			return false
+		}
+	}
+	return true
 }
